@@ -24,6 +24,7 @@ type Scenario struct {
 	SelectCost  bool
 	MaxExecs    int // cap on executions (0 = default)
 	MaxSteps    int
+	Once        bool // pure enumeration inside the body: execute exactly once, no schedule search
 	Horizon     time.Duration
 	Run         func()
 }
@@ -64,6 +65,7 @@ type Report struct {
 	SampleObs   []string `json:"sample_obs,omitempty"`
 	SampleTrace []string `json:"sample_trace,omitempty"`
 	OutcomeList []string `json:"outcome_list,omitempty"`
+	Extra        map[string]int64 `json:"extra,omitempty"`
 }
 
 type Options struct {
@@ -100,6 +102,18 @@ func Explore(t *testing.T, sc *Scenario, opt Options) *Report {
 	}
 	if opt.MaxFound == 0 {
 		x.opt.MaxFound = 3
+	}
+	if sc.Once {
+		res := vsched.Run(t, cfgOf(sc, nil, false), sc.Run)
+		x.rep.Executions, x.rep.Steps, x.rep.Nodes = 1, res.Steps+1, 1
+		x.onceCheck(res)
+		rep.SampleObs = res.Obs
+		rep.BoundDone = 0
+		rep.Outcomes = len(x.outcomes)
+		rep.Extra = res.Counters
+		rep.Exhaustive = rep.Cap == "" && rep.EngineError == ""
+		rep.WallS = time.Since(start).Seconds()
+		return rep
 	}
 	// determinism self-check: the default schedule twice, identical observations and points
 	a := vsched.Run(t, cfgOf(sc, nil, true), sc.Run)
@@ -277,6 +291,36 @@ func (x *explorer) check(prefix []int, res *vsched.Result) {
 			x.stop = true
 			x.rep.Cap = "stopped after reaching the violation limit"
 		}
+	}
+}
+
+// onceCheck records violations of a run-once enumeration (each is reproduced once).
+func (x *explorer) onceCheck(res *vsched.Result) {
+	viol := res.Violations
+	if res.Panic != "" {
+		viol = append(viol, vsched.Violation{Key: "panic|" + firstGoatFrame(res.PanicStack), Msg: "panicked: " + res.Panic})
+	}
+	x.outcomes[sha256.Sum256([]byte(strings.Join(res.Obs, "\n")))] = struct{}{}
+	for _, v := range viol {
+		if x.sc.Prop != "" && !strings.HasPrefix(v.Key, x.sc.Prop+"/") && !strings.HasPrefix(v.Key, "panic|") {
+			continue
+		}
+		if x.keys[v.Key] {
+			continue
+		}
+		x.keys[v.Key] = true
+		r2 := vsched.Run(x.t, cfgOf(x.sc, nil, false), x.sc.Run)
+		same := r2.Panic != "" && strings.HasPrefix(v.Key, "panic|")
+		for _, v2 := range r2.Violations {
+			if v2.Key == v.Key {
+				same = true
+			}
+		}
+		if !same {
+			x.rep.EngineError = "NONDETERMINISM: violation " + v.Key + " did not reproduce"
+			return
+		}
+		x.rep.Found = append(x.rep.Found, Found{Scenario: x.sc.Name, Family: x.sc.Family, Key: v.Key, Msg: v.Msg, End: res.End, Obs: res.Obs, Panic: res.Panic, Stack: res.PanicStack})
 	}
 }
 
